@@ -8,6 +8,7 @@ import (
 	"io"
 	"net"
 	"sync"
+	"time"
 )
 
 type FetchReq struct {
@@ -29,6 +30,9 @@ type FetchResp struct {
 	// CutFn, when non-nil, overrides Cut: it is given the length of the response frame (everything after the 4-byte
 	// size field, correlation id included) and returns the Cut value to apply.
 	CutFn func(frameLen int) int
+	// StallAt > 0: the first StallAt bytes of the response frame are written, the rest after StallFor (a slow link)
+	StallAt  int
+	StallFor time.Duration
 }
 
 type Broker struct {
@@ -94,6 +98,7 @@ func (b *Broker) serve(c net.Conn, id int) {
 		var body bytes.Buffer
 		be32(&body, corr)
 		cut := -1
+		stallAt, stallFor := 0, time.Duration(0)
 		switch key {
 		case 18: // ApiVersions v0
 			be16(&body, 0)
@@ -203,6 +208,7 @@ func (b *Broker) serve(c net.Conn, id int) {
 			if p.CutFn != nil {
 				cut = p.CutFn(body.Len())
 			}
+			stallAt, stallFor = p.StallAt, p.StallFor
 		default:
 			return
 		}
@@ -213,6 +219,13 @@ func (b *Broker) serve(c net.Conn, id int) {
 		if cut >= 0 && 4+cut < len(w) {
 			c.Write(w[:4+cut])
 			return
+		}
+		if stallAt > 0 && 4+stallAt < len(w) {
+			if _, err := c.Write(w[:4+stallAt]); err != nil {
+				return
+			}
+			time.Sleep(stallFor)
+			w = w[4+stallAt:]
 		}
 		if _, err := c.Write(w); err != nil {
 			return
